@@ -80,6 +80,14 @@ def hooks_in_scope(run, f):
             if okv:
                 who = strip_refs(tr.norm(tr.call_args(val[1])[0]))
                 okv = who[0] in ("param", "upvar") and lc.f.ty(_ty_of(lc, who)).peel_refs().is_adt("actor_ref::ActorRef") if _ty_of(lc, who) is not None else False
+            elif val[0] == "call" and val[2] == "actor_ref::ActorWeak::<T>::identity":
+                # the identity of the lifecycle's own weak handle, i.e. of ActorRef::downgrade(&<this actor's ActorRef>): the same
+                # Identity (C11 rule O11.2: every handle construction copies the id)
+                w = strip_refs(tr.norm(tr.call_args(val[1])[0]))
+                okv = w[0] == "call" and w[2] == "actor_ref::ActorRef::<T>::downgrade"
+                if okv:
+                    who = strip_refs(tr.norm(tr.call_args(w[1])[0]))
+                    okv = who[0] in ("param", "upvar") and lc.f.ty(_ty_of(lc, who)).peel_refs().is_adt("actor_ref::ActorRef") if _ty_of(lc, who) is not None else False
             run.require(okv, "O14.1", "scope-value-is-own-identity:%s" % key, "CURRENT_ACTOR is set to %s for the %s future, not to this actor's identity" % (show(val), h),
                         "scope value = actor_ref.identity() of this actor", loc=lc.loc(scope_bb))
             # the scope future is what gets polled (awaited or select branch)
